@@ -88,7 +88,13 @@ def PPd (b : B) (gs : List Nat) (j : Nat) (p : Nat × Nat) : Prop :=
         p.1 ∈ b.deref ends ∧ BeginOf b g' p.2))
 def PPat (b : B) (c : Bool) (t : Nat) (p : Nat × Nat) : Prop :=
   ∃ l j gs, aget t (dictOf c b) = some l ∧ j ∈ l ∧ aget j b.finallySections = some gs ∧ PPd b gs j p
-def PP (b : B) (p : Nat × Nat) : Prop := ∃ c t, PPat b c t p
+/-- the sections a jump of kind `c` (continue / exit) registered under the scope list `σ` can target -/
+def Tgt (σ : List Scope) (c : Bool) (t : Nat) : Prop := loopOf σ = some t ∨ (c = false ∧ fnOf σ = some t)
+
+theorem tgt_key {σ : List Scope} {c : Bool} {t : Nat} (h : Tgt σ c t) : sk t ∈ scopeKeys σ := by
+  rcases h with h | ⟨_, h⟩
+  · exact enclosingFinally_target_key .loop σ t h
+  · exact enclosingFinally_target_key .fn σ t h
 
 /-- the waiting `finally` section `T` got `y` as its first node -/
 def StartedAt (b : B) (T y : Nat) : Prop := T ∉ b.pendingFinally ∧ ∃ e, aget T b.finallySub = some (some y, e)
@@ -97,11 +103,11 @@ def StartedAt (b : B) (T y : Nat) : Prop := T ∉ b.pendingFinally ∧ ∃ e, ag
 def Src (b : B) (T : Nat) (curP : List Nat) (x : Nat) : Prop := x ∈ b.leafSet ∨ (x ∈ curP ∧ Wait b T)
 
 /-- a required pair is an edge, a pending pair, or a pair from a pending node into the first node of `T` -/
-def ReqOk (b : B) (T : Nat) (curP : List Nat) (p : Nat × Nat) : Prop :=
-  p ∈ b.edges ∨ PP b p ∨ (p.1 ∈ curP ∧ StartedAt b T p.2)
+def ReqOk (σ : List Scope) (b : B) (T : Nat) (curP : List Nat) (p : Nat × Nat) : Prop :=
+  p ∈ b.edges ∨ (∃ c t, Tgt σ c t ∧ PPat b c t p) ∨ (p.1 ∈ curP ∧ StartedAt b T p.2)
 
 structure Pend (σ : List Scope) (T : Nat) (curP : List Nat) (b : B) (R : Flow) : Prop where
-  req : ∀ p, p ∈ R.req → ReqOk b T curP p
+  req : ∀ p, p ∈ R.req → ReqOk σ b T curP p
   brk : ∀ x, x ∈ R.brk → ∃ L, loopOf σ = some L ∧ PJ false b L (guardsOf .loop σ) x
   cont : ∀ x, x ∈ R.cont → ∃ L, loopOf σ = some L ∧ PJ true b L (guardsOf .loop σ) x
   ret : ∀ x, x ∈ R.ret → ∃ F, fnOf σ = some F ∧ PJ false b F (guardsOf .fn σ) x
@@ -214,13 +220,13 @@ theorem dict_key_old {b : B} (c : Bool) {t : Nat} {l : List Nat} (h : aget t (di
   · exact List.mem_append.mpr (Or.inr (List.mem_append.mpr (Or.inr (List.mem_append.mpr (Or.inl (key_of_aget h))))))
   · exact List.mem_append.mpr (Or.inr (List.mem_append.mpr (Or.inr (List.mem_append.mpr (Or.inr (key_of_aget h))))))
 
-theorem PP.mono {K : List Nat} {b b' : B} (hf : Frame K b b') (hx : FrameX K b b') (hold : ∀ k, k ∈ K → k ∉ Old b)
-    (hlin : ListsInNodes b) {p : Nat × Nat} (h : PP b p) : PP b' p := by
-  obtain ⟨c, t, l, j, gs, h1, h2, h3, h4⟩ := h
+theorem PPat.mono {K : List Nat} {b b' : B} (hf : Frame K b b') (hx : FrameX K b b') (hold : ∀ k, k ∈ K → k ∉ Old b)
+    (hlin : ListsInNodes b) {c : Bool} {t : Nat} {p : Nat × Nat} (h : PPat b c t p) : PPat b' c t p := by
+  obtain ⟨l, j, gs, h1, h2, h3, h4⟩ := h
   have ht : sk t ∉ K := fun hk => hold _ hk (dict_key_old c h1)
   obtain ⟨l', hl', hs⟩ := dict_mono hf c ht h1
   have hj : nk j ∉ K := fun hk => hold _ hk (nk_mem_old (dict_in_nodes hlin c h1 j h2))
-  refine ⟨c, t, l', j, gs, hl', hs j h2, by rw [hx.fsec j hj]; exact h3, ?_⟩
+  refine ⟨l', j, gs, hl', hs j h2, by rw [hx.fsec j hj]; exact h3, ?_⟩
   have bmono : ∀ g y, BeginOf b g y → BeginOf b' g y := by
     intro g y hb
     have hb' := hb
@@ -232,17 +238,17 @@ theorem PP.mono {K : List Nat} {b b' : B} (hf : Frame K b b') (hx : FrameX K b b
     obtain ⟨q1, q2⟩ := hx.fsub g hgK e2
     exact Or.inr ⟨l1, g, g', r, beg, ends, e1, q2, by rw [q1]; exact e3, hf.deref ends _ e4, bmono g' _ e5⟩
 
-theorem ReqOk.mono {K : List Nat} {b b' : B} (hf : Frame K b b') (hx : FrameX K b b') (hold : ∀ k, k ∈ K → k ∉ Old b)
-    (hlin : ListsInNodes b) {T : Nat} {curP : List Nat} (hT : curP = [] ∨ sk T ∉ K) {p : Nat × Nat} (h : ReqOk b T curP p) :
-    ReqOk b' T curP p := by
-  rcases h with h | h | ⟨h1, h2⟩
+theorem ReqOk.mono {σ : List Scope} {K : List Nat} {b b' : B} (hf : Frame K b b') (hx : FrameX K b b') (hold : ∀ k, k ∈ K → k ∉ Old b)
+    (hlin : ListsInNodes b) {T : Nat} {curP : List Nat} (hT : curP = [] ∨ sk T ∉ K) {p : Nat × Nat} (h : ReqOk σ b T curP p) :
+    ReqOk σ b' T curP p := by
+  rcases h with h | ⟨c, t, htg, h⟩ | ⟨h1, h2⟩
   · exact Or.inl (hf.edges p h)
-  · exact Or.inr (Or.inl (PP.mono hf hx hold hlin h))
+  · exact Or.inr (Or.inl ⟨c, t, htg, PPat.mono hf hx hold hlin h⟩)
   · rcases hT with hT | hT
     · rw [hT] at h1; cases h1
     · exact Or.inr (Or.inr ⟨h1, startedAt_mono hx hT h2⟩)
 
-theorem ReqOk.weaken {b : B} {T : Nat} {curP : List Nat} {p : Nat × Nat} (h : ReqOk b T [] p) : ReqOk b T curP p := by
+theorem ReqOk.weaken {σ : List Scope} {b : B} {T : Nat} {curP : List Nat} {p : Nat × Nat} (h : ReqOk σ b T [] p) : ReqOk σ b T curP p := by
   rcases h with h | h | ⟨h1, _⟩
   · exact Or.inl h
   · exact Or.inr (Or.inl h)
@@ -253,7 +259,7 @@ theorem Pend.empty (σ : List Scope) (T : Nat) (curP : List Nat) (b : B) : Pend 
    fun _ h => (List.not_mem_nil h).elim, fun _ h => (List.not_mem_nil h).elim, fun _ h => (List.not_mem_nil h).elim⟩
 
 theorem Pend.of_req (σ : List Scope) (T : Nat) (curP : List Nat) (b : B) (l : List (Nat × Nat)) (nrm : List Nat)
-    (h : ∀ p, p ∈ l → ReqOk b T curP p) : Pend σ T curP b { req := l, normal := nrm } :=
+    (h : ∀ p, p ∈ l → ReqOk σ b T curP p) : Pend σ T curP b { req := l, normal := nrm } :=
   ⟨h, fun _ h => (List.not_mem_nil h).elim, fun _ h => (List.not_mem_nil h).elim,
    fun _ h => (List.not_mem_nil h).elim, fun _ h => (List.not_mem_nil h).elim, fun _ h => (List.not_mem_nil h).elim⟩
 
